@@ -672,6 +672,7 @@ class MultiSetup_PreGER(BaseSetup, GeometryMixin):
             newdatasets.append(newdata)
 
         Y = pre_multisetup(newdatasets, self.ref_ind)
+        self.datasets = newdatasets
         self.data = Y
 
     # method to detrend data
@@ -713,4 +714,5 @@ class MultiSetup_PreGER(BaseSetup, GeometryMixin):
             newdatasets.append(newdata)
 
         Y = pre_multisetup(newdatasets, self.ref_ind)
+        self.datasets = newdatasets
         self.data = Y
